@@ -9,7 +9,7 @@ import json, os, re, time
 from collections import Counter
 
 PKG = "network/dag"
-HARNESS = ["network/dag/zz_verif_c14_test.go"]
+HARNESS = ["network/dag/zz_verif_c14_test.go", "network/dag/zz_verif_c14opt_test.go"]
 HARNESSES = [(PKG, HARNESS, "c14"), ("network/transport/v2", ["network/transport/v2/zz_verif_c14_test.go"], "c14h"),
              ("network", ["network/zz_verif_c14_test.go"], "c14s"),
              ("vcr", ["vcr/zz_verif_c14_test.go"], "c14v")]
@@ -22,7 +22,11 @@ REQUIRED = ["no_loss", "admitted_by_commit", "only_admitted_delivered", "save_ev
             "completed_or_visible", "parked_witness",
             "fact_retry_constants", "fact_retry_arithmetic", "fact_retry_backoff", "fact_notifyNow_retries", "fact_notify_drops_only_event_fatal",
             "fact_run_replays_every_job", "fact_start_runs_every_notifier", "fact_receiver_error_classification", "fact_registration_receivers", "fact_cleanup_only_named_subscriber_and_prefix", "fact_subscribers_persist_on_the_dag_store", "fact_save_only_new_events", "fact_failed_events_threshold", "fact_save_in_write_tx_notify_after_commit",
-            "fact_writePayload_skips_stored_payload", "fact_write_back_skips_removed_event", "fact_payload_handler_sequence", "fact_registrations"]
+            "fact_writePayload_skips_stored_payload", "fact_write_back_skips_removed_event", "fact_payload_handler_sequence", "fact_registrations",
+            # deepening round 2026-09-28 (NutsProofs.Props.C14Ops): construction side, non-persistent path, machine arithmetic
+            "options_persistent_iff", "options_filters_accumulate", "options_last_delay_wins", "options_default_delay",
+            "registry_names_unique", "first_registration_stays", "register_duplicate_refused", "save_proceeds_iff", "save_nonpersistent_iff",
+            "np_calls_bounded", "np_gives_up_after_budget", "retry_attempts_machine", "retry_attempts_refines", "retry_delay_never_overflows"]
 
 
 def sel(filters, tx, ty):
@@ -74,6 +78,9 @@ class History:
         self.ops, self.lines = [], []
 
 
+MAX_RETRIES = 20    # set from the regenerated facts in run()
+
+
 def oracle(h, threshold):
     """evaluate the property directly on the implementation's output of one history.
     returns list of (signature, text, line index within history)"""
@@ -93,6 +100,8 @@ def oracle(h, threshold):
     prev_jobs = {}
     last_restart_stopped = False
     seen = set()
+    ncalls = Counter()  # (s, r) -> receiver calls that reached the receiver
+    any_restart = False
 
     def report(sig, text, i):
         if sig not in seen:
@@ -147,6 +156,17 @@ def oracle(h, threshold):
                             o2["op"] == "wp" and o2["ref"] == r for o2 in h.ops[completed[(s, r)] + 1:i + 1]) else "job-recreated-by-" + kind)
                     report("C14:call-after-completion:" + how,
                            f"subscriber {subs[s]['name']} called again for {ty} event of ref {r} (line {h.start + i}) after its completion was recorded (line {h.start + completed[(s, r)]})", i)
+            # State.Add / WritePayload notify an event ONCE, right after the commit that saved it: the job is fresh (retries 0).
+            # A call from add/wp that sees recorded failures is a SECOND notification of the same event (duplicate payload
+            # message): after a fatal error / a spent budget the subscriber must not be called again, and a job that is still
+            # retrying must not get a second, parallel retry loop with a fresh budget.
+            if s < len(subs) and typed(subs[s]["filters"]) and kind in ("add", "wp") and ret > 0 and o != "readFault":
+                when = "after-fatal-error" if ret > MAX_RETRIES else "after-retry-budget-spent" if ret == MAX_RETRIES else "while-still-retrying"
+                report("C14:notified-again:" + when,
+                       f"{kind} of ref {r} notified subscriber {subs[s]['name']} again for its {ty} event although the job had been attempted before "
+                       f"(recorded retries={ret}, budget {MAX_RETRIES}): called {when.replace('-', ' ')}", i)
+            if o != "readFault":
+                ncalls[(s, r)] += 1
             if o == "doneFinishFail":
                 finfail_keys.add((s, r))
             # a storage fault of the notifier itself INSIDE a running retry loop: the loop must go on (one attempt spent)
@@ -186,6 +206,13 @@ def oracle(h, threshold):
                 report("C14:failed-events-listing", f"GetFailedEvents lists {sorted(failed)} but jobs at/over the threshold are {sorted(want)}", i)
         if kind == "restart":
             last_restart_stopped = status == "stop"
+            any_restart = True
+        # --- retry budget: without a restart in between (Run replays every job once more) a subscriber is called at most
+        #     maxRetries times for one event
+        if kind == "end" and not any_restart:
+            for (s, r), n in sorted(ncalls.items()):
+                if s < len(subs) and typed(subs[s]["filters"]) and n > MAX_RETRIES:
+                    report("C14:calls-exceed-retry-budget", f"subscriber {subs[s]['name']} was called {n} times for ref {r} in one run of the node (budget {MAX_RETRIES})", i)
         # --- end of history: delivered at least once; what is still on the shelf is visible as failed
         if kind == "end" and not last_restart_stopped and not tasks:
             for (r, ty), _ in admitted.items():
@@ -237,7 +264,7 @@ def split_histories(ops, impl):
 
 def run(ctx):
     facts = ctx.facts()
-    thms = ctx.build_and_audit(["NutsProofs.Props.C14"])
+    thms = ctx.build_and_audit(["NutsProofs.Props.C14", "NutsProofs.Props.C14Ops"])
     for r in REQUIRED:
         if not any(t.endswith("Props." + r) for t in thms):
             ctx.oblige("thm-present:" + r, False, "theorem missing or its module does not build")
@@ -254,6 +281,8 @@ def run(ctx):
         "real sleeping is not observed: the back-off is tied by facts (retry.Do options) and theorem delay_monotone only",
     ]
     threshold = (facts or {}).get("retriesFailedThreshold", 10)
+    global MAX_RETRIES
+    MAX_RETRIES = (facts or {}).get("maxRetries", 20)
 
     binary = ctx.go_test_binary(PKG, HARNESS, "c14")
     if binary is None:
@@ -261,6 +290,9 @@ def run(ctx):
         return
     ctx.oblige("harness-builds", True)
     env = {}
+    if ctx.replay and '"o14' in open(ctx.replay, errors="replace").read(4000):
+        options_oracle(ctx, binary, facts)     # a replay of the construction-side leg
+        return
     if ctx.replay:
         env["VERIF_REPLAY"] = os.path.abspath(ctx.replay)
     else:
@@ -323,6 +355,7 @@ def run(ctx):
         duplicate_add_oracle(ctx, binary)
         start_oracle(ctx)
         classification_oracle(ctx)
+        options_oracle(ctx, binary, facts)
 
     # ---- real sleeping of the retry loop: never shorter than retryDelay * 2^(1+k) (capped), i.e. growing
     n_timing = 0
@@ -376,7 +409,7 @@ def run(ctx):
             sig.append((op["op"], op.get("s"), op.get("ref"), st))
         if stopped and delivered:
             distinct.add(hash((json.dumps(h.reset.get("beh"), sort_keys=True), tuple(sig))))
-    ctx.cov["evaluations"] = len(impl)
+    ctx.cov["evaluations"] = len(impl) + sum(ctx.cov.get(k, {}).get("ops", 0) for k in ("options_leg", "api_leg"))
     ctx.cov["distinct_nontrivial"] = len(distinct)
     ctx.cov["traces_validated_against_impl"] = len(impl) - len(bad)
     ctx.cov["rule"] = ("histories over a pool of 10 real signed transactions (public/private, did/vc/revocation/other payload types, two roots, two "
@@ -631,6 +664,107 @@ def classification_oracle(ctx):
         ctx.violation("C14:receiver-misclassifies:vcr", f"real vcr ambassador.handleError in a real notifier: expected {[(k, want[k]) for k in wrong]}, observed {wrong}",
                       "receiver-classification-vcr.txt", f"scenario of harness/inpkg/vcr/zz_verif_c14_test.go: expected {want}\nobserved {got}\n")
     ctx.cov["classification_cases"] = len(got)
+
+
+def options_oracle(ctx, binary, facts):
+    """construction side (NutsModel.C14.Options): real state.Notifier / NewNotifier + options, the first statements of Save,
+    real notifier.retry on hostile Retries values, the NON-persistent Notify path - each line against the model, plus
+    model-free oracles recomputed here from the op"""
+    d = os.path.join(ctx.scratch, "outo")
+    env = {"VERIF_REPLAY": os.path.abspath(ctx.replay)} if ctx.replay else {}
+    rc, log, out = ctx.run_harness(binary, "TestVerifC14Options", env, outdir=d, timeout=900)
+    if rc != 0:
+        ctx.oblige("options-harness-runs", False, "\n".join(l for l in log.split("\n") if "level=audit" not in l)[-1200:])
+        return
+    ops_p, impl_p, model_p = (os.path.join(out, x) for x in ("ops.jsonl", "impl.out", "model.out"))
+    ok, err = ctx.model("C14", ops_p, model_p)
+    ctx.oblige("options-model-driver-runs", ok, err[-500:])
+    impl, model, bad = ctx.compare(impl_p, model_p)
+    ops = [json.loads(l) for l in ctx.read_lines(ops_p) if l.strip()]
+    max_retries = (facts or {}).get("maxRetries", 20)
+    default_delay = (facts or {}).get("defaultRetryDelayNs", 10**9)
+    kinds, viol = Counter(), []
+
+    def expect_attempts(k):
+        return max_retries - (k + 1) if 0 <= k and k + 1 < max_retries else 0
+
+    for i, (op, line) in enumerate(zip(ops, impl)):
+        f = line.split("|")
+        if "TIMEOUT" in line or "panic" in line or line.startswith("err"):
+            viol.append((i, "harness:" + f[-1][:40], line))
+            continue
+        if op["op"] == "o14new":
+            accepted, want_status = {}, []
+            for r in op["regs"]:
+                if r["name"] in accepted:
+                    want_status.append("dup")
+                else:
+                    want_status.append("ok")
+                    accepted[r["name"]] = r["opts"]          # the FIRST registration of a name stays
+            if f[1] != ",".join(want_status) or f[3] != "listed=true":
+                viol.append((i, "registry:duplicate-name-handling", line))
+            rows = [r.split(":") for r in f[2].split(";")] if f[2] else []
+            if [r[0] for r in rows] != list(accepted):
+                viol.append((i, "registry:registered-notifiers", line))
+                continue
+            for r in rows:
+                name, pers, dbid, delay, nf, shelf, counters, ctxid, kind = r
+                o = accepted[name] or []
+                dbs = [x["v"] for x in o if x["k"] == "pers"]
+                delays = [x.get("v", 0) for x in o if x["k"] == "delay"]
+                fs = [x["f"] for x in o if x["k"] == "filter"]
+                ctxs = [x["v"] for x in o if x["k"] == "ctx"]
+                if (pers == "true") != bool(dbs) or int(dbid) != (dbs[-1] if dbs else 0):
+                    viol.append((i, "options:persistency", line))
+                if int(delay) != (delays[-1] if delays else default_delay):
+                    viol.append((i, "options:retry-delay", line))
+                if int(nf) != len(fs) or int(ctxid) != (ctxs[-1] if ctxs else 0) or counters != "true":
+                    viol.append((i, "options:filters-context-counters", line))
+                if shelf != "_" + name + "_jobs":
+                    viol.append((i, "shelf-name", line))
+                ev = op["ev"]
+                want = "nonPersistent" if not dbs else "differentDB" if dbs[-1] != op["txdb"] else \
+                    "proceed" if sel(fs, ev, ev["type"]) else "filtered"
+                kinds[want] += 1
+                if kind != want:
+                    viol.append((i, "save:" + want + "-expected", line))
+        elif op["op"] == "o14retry":
+            kinds["retry:" + ("loop" if expect_attempts(op["retries"]) else "none")] += 1
+            if line != "retry|attempts=%d" % expect_attempts(op["retries"]):
+                viol.append((i, "retry-attempts-arithmetic", line))
+        elif op["op"] == "o14np":
+            beh = lambda k: op["beh"][k] if k < len(op.get("beh", [])) else op["rest"]
+            calls = 0
+            if op.get("accept"):
+                calls = 1
+                if beh(0) in ("notDone", "fail"):
+                    for k in range(1, 1 + expect_attempts(op["retries"])):
+                        calls += 1
+                        if beh(k) not in ("notDone", "fail"):
+                            break
+            kinds["np:calls=" + ("0" if calls == 0 else "1" if calls == 1 else "budget" if calls == max_retries else "some")] += 1
+            want = "np|calls=%d|seen=%s|failed=0:<nil>|run=<nil>:0|fin=<nil>" % (calls, op["retries"] if calls else "-")
+            if line != want:
+                viol.append((i, "non-persistent-notifier", line))
+    ctx.oblige("options-harness-runs", len(impl) == len(ops) and len(ops) > 0, f"{len(ops)} ops")
+    ctx.oblige("oracle:options/registry/save-kind/retry-arithmetic/non-persistent(impl)", not viol,
+               "; ".join(f"op {i}: {w}: {l[:160]}" for i, w, l in viol[:3]))
+    if viol:
+        i, w, l = viol[0]
+        ctx.violation("C14:notifier-construction:" + w,
+                      f"real NewNotifier/state.Notifier/Save/retry/Notify (construction-side leg, op {i}): {w}; implementation said: {l[:300]}",
+                      "notifier-construction-" + re.sub(r"[^A-Za-z0-9]+", "-", w)[:40] + ".jsonl", json.dumps(ops[i]) + "\n")
+    if bad:
+        i = bad[0]
+        detail = f"first differing line {i}\nop   : {json.dumps(ops[i])[:500] if i < len(ops) else None}\nimpl : {impl[i][:500] if i < len(impl) else None}\nmodel: {model[i][:500] if i < len(model) else None}"
+        ctx.oblige("correspondence:options-model=impl", False, f"{len(bad)} of {len(impl)} lines differ; " + detail[:600])
+        if not viol:
+            with open(os.path.join(ctx.replay_dir(), "correspondence-options.jsonl"), "w") as fh:
+                fh.write(json.dumps(ops[i]) + "\n" if i < len(ops) else "")
+            ctx.unproved(["correspondence C14 construction side (Options model != impl)"], detail + f"\nreplay: {ctx.replay_dir()}/correspondence-options.jsonl")
+    else:
+        ctx.oblige("correspondence:options-model=impl", True, f"{len(impl)} lines equal")
+    ctx.cov["options_leg"] = {"ops": len(ops), "distribution": dict(kinds)}
 
 
 def shrink(ctx, binary, h, upto, sig, threshold):
